@@ -39,6 +39,8 @@ TEXT_PRESERVE = gen_model.profile(**dict(TEXT, preserve=True, max_nodes=24))
 SUBMS = gen_model.profile(**dict(TEXT, arbitrary_times=True, max_nodes=14, time_density=3, time_shifts=None))
 # text containing the characters that WebVTT must escape (SubRip has no escaping: WebVTT configurations only)
 MARKUP = gen_model.profile(**dict(TEXT, text_markup=True, max_nodes=16, ruby=False, time_shifts=None))
+# text with characters outside ASCII, among them the ones Unicode calls line boundaries (U+2028, U+0085 ...) but TTML / SubRip / WebVTT do not
+UNICODE = gen_model.profile(**dict(TEXT, text_unicode=True, max_nodes=16, time_shifts=None))
 SHRINK = gen_model.case_simplifications("spec")
 
 SRT_CFGS = {"srt": None, "srt-noformat": SRTWriterConfiguration(text_formatting=False)}
@@ -177,6 +179,7 @@ PARTS = {
                    required_labels=("preserve-text-visible",)),
   "markup": Part("markup", check, strategy=cases(MARKUP, cfgs=VTT_NAMES), n=(320, 16000), shrinker=SHRINK,
                  required_labels=("text-with-markup-characters",)),
+  "unicode": Part("unicode", check, strategy=cases(UNICODE), n=(240, 12000), shrinker=SHRINK),
   "subms": Part("subms", check, strategy=cases(SUBMS, True), n=(480, 24000), shrinker=SHRINK,
                 required_labels=("sub-millisecond-interval-without-cue-among-others", "sub-millisecond-interval-crossing-a-millisecond")),
 }
